@@ -211,6 +211,27 @@ Definition str_to_int_matrix (texts : list (list Z)) : option (list Z) :=
   | None => None
   | Some digs => Some (map (fun ds => wrap64 (dotp ds (map pow10_i64 (down (Z.to_nat w))))) digs)
   end.
+(* ---------- move_intervals_to_digit_array at index level (file_buffers.py:21-31) ----------
+     max_chars = np.max(ends - starts); view_starts = ends - max_chars
+     array = data[view_starts[..., None] + np.arange(max_chars)]       (a negative index wraps around, as in NumPy)
+     array[flat cells row*max_chars + [0, max_chars - (end - start))] = fill_value                              *)
+Definition np_get (data : list Z) (i : Z) : Z := nthZ data (if i <? 0 then len data + i else i).
+Definition max_width (ivs : list (Z * Z)) : Z := fold_right Z.max 0 (map (fun iv => snd iv - fst iv) ivs).
+Definition digit_matrix_row (data : list Z) (fill w : Z) (iv : Z * Z) : list Z :=
+  map (fun j => if j <? m_n_fill w (snd iv - fst iv) then fill else np_get data (m_window_index (snd iv) w j))
+      (arange w).
+Definition digit_matrix (data : list Z) (ivs : list (Z * Z)) (fill : Z) : list (list Z) :=
+  map (digit_matrix_row data fill (max_width ivs)) ivs.
+(* the integer column read from the buffer: fields are data[start:end) *)
+Definition fields_of (data : list Z) (ivs : list (Z * Z)) : list (list Z) :=
+  map (fun iv => slice (fst iv) (snd iv) data) ivs.
+Definition str_to_int_buffer (data : list Z) (ivs : list (Z * Z)) : option (list Z) :=
+  let w := max_width ivs in
+  match encode_rows (digit_matrix data ivs 48) with
+  | None => None
+  | Some digs => Some (map (fun ds => wrap64 (dotp ds (map pow10_i64 (down (Z.to_nat w))))) digs)
+  end.
+
 Definition has_sign (texts : list (list Z)) : bool :=
   existsb (fun t => head_is 45 t || head_is 43 t) texts.
 (* the integer column of a delimited file *)
@@ -346,3 +367,143 @@ Definition str_to_float_rows_pinned := str_to_float_gen false.
 Definition str_to_float_rows := str_to_float_gen true.
 Definition model_frac (r : bool * Z * Z * Z) : Z * Z :=
   let '(ng, b, f, e) := r in frac_of ng b (e - f).
+
+(* ====================================================================================== *)
+(* The double-precision evaluation of str_to_float, in the order NumPy performs it         *)
+(* ====================================================================================== *)
+(* MODELLED ASSUMPTIONS (tested bit for bit by the correspondence, not provable from the Python source):
+   (E1) +, *, / on float64 are IEEE-754 round-to-nearest-even of the exact result;
+   (E2) the row sum `(digits*powers).sum(axis=-1)` is np.add.reduceat: first element + NumPy's pairwise_sum of the
+        rest (plain loop from 0. below 8 elements; 8 running accumulators, then ((r0+r1)+(r2+r3))+((r4+r5)+(r6+r7)),
+        then the leftover elements one by one, up to 128 elements);
+   (E3) 10.**k on an integer array is a fixed function P of k on the running platform (NOT correctly rounded with
+        this NumPy build: 10.**-5 = 9.999999999999999e-06); P is observed by the harness and handed to the model.
+   A finite double is the dyadic number m * 2^e in canonical form: e <= 0, and e = 0 or m odd (so integers are (n, 0)). *)
+Definition dy := (Z * Z)%type.
+Definition canon (m e : Z) : dy :=
+  if m =? 0 then (0, 0)
+  else if 0 <=? e then (m * 2 ^ e, 0)
+  else let t := Z.min (Z.log2 (Z.land m (- m))) (- e) in (m / 2 ^ t, e + t).
+Definition dy_add (a b : dy) : dy :=
+  let e := Z.min (snd a) (snd b) in canon (fst a * 2 ^ (snd a - e) + fst b * 2 ^ (snd b - e)) e.
+Definition dy_mul (a b : dy) : dy := canon (fst a * fst b) (snd a + snd b).
+(* |m| / 2^s rounded to nearest, ties to even; sign restored *)
+Definition rne_shift (m s : Z) : Z :=
+  let a := Z.abs m in let q := a / 2 ^ s in let r := a mod 2 ^ s in let h := 2 ^ (s - 1) in
+  Z.sgn m * (if r <? h then q else if h <? r then q + 1 else if Z.even q then q else q + 1).
+(* round a dyadic to binary64 (53 significant bits, smallest exponent -1074); unbounded above *)
+Definition rnd (a : dy) : dy :=
+  let '(m, e) := a in
+  if m =? 0 then (0, 0)
+  else let ue := Z.max (Z.log2 (Z.abs m) - 52 + e) (-1074) in
+       if ue <=? e then (m, e) else canon (rne_shift m (ue - e)) ue.
+Definition dadd (a b : dy) : dy := rnd (dy_add a b).
+Definition dmul (a b : dy) : dy := rnd (dy_mul a b).
+(* correctly rounded quotient: 55+ quotient bits and a sticky bit, then one rounding *)
+Definition ddiv (a b : dy) : dy :=
+  let '(m1, e1) := a in let '(m2, e2) := b in
+  if (m1 =? 0) || (m2 =? 0) then (0, 0)
+  else let k := Z.max 0 (56 + Z.log2 (Z.abs m2) - Z.log2 (Z.abs m1)) in
+       let n := Z.abs m1 * 2 ^ k in
+       let q := n / Z.abs m2 in let sticky := if n mod Z.abs m2 =? 0 then 0 else 1 in
+       rnd (canon (Z.sgn m1 * Z.sgn m2 * (2 * q + sticky)) (e1 - e2 - k - 1)).
+
+(* NumPy pairwise_sum (loops_utils.h.src), rows of at most 128 elements; None beyond *)
+Fixpoint map2_dadd (r a : list dy) : list dy :=
+  match r, a with x :: r', y :: a' => dadd x y :: map2_dadd r' a' | _, _ => r end.
+Fixpoint acc_blocks (fuel : nat) (r rest : list dy) : list dy * list dy :=
+  match fuel with
+  | O => (r, rest)
+  | S f => if (8 <=? length rest)%nat then acc_blocks f (map2_dadd r (firstn 8 rest)) (skipn 8 rest) else (r, rest)
+  end.
+Definition tree8 (r : list dy) : dy :=
+  match r with
+  | [r0; r1; r2; r3; r4; r5; r6; r7] => dadd (dadd (dadd r0 r1) (dadd r2 r3)) (dadd (dadd r4 r5) (dadd r6 r7))
+  | _ => (0, 0)
+  end.
+Definition pairwise_sum (a : list dy) : option dy :=
+  if (length a <? 8)%nat then Some (fold_left dadd a (0, 0))
+  else if (length a <=? 128)%nat then
+    let '(r, rest) := acc_blocks (length a) (firstn 8 a) (skipn 8 a) in Some (fold_left dadd rest (tree8 r))
+  else None.
+(* np.add.reduceat over one row *)
+Definition reduce_row (terms : list dy) : option dy :=
+  match terms with
+  | [] => Some (0, 0)
+  | [t] => Some t
+  | t :: rest => option_map (dadd t) (pairwise_sum rest)
+  end.
+
+(* ---- the decomposition of a float text the evaluation works on: per row
+        (negative?, digits, their exponents, number of digits after the point, exponent after 'e' if any) ---- *)
+Definition pre_row := (bool * list Z * list Z * Z * option Z)%type.
+Definition decimal_pre (plus : bool) (texts : list (list Z)) : option (list (bool * list Z * list Z * Z)) :=
+  match encode_rows (map (dec_prepare plus) texts) with
+  | None => None
+  | Some digs =>
+      let pw := power_rows (map (fun t => (len t, dot_cols t)) texts) in
+      Some (map (fun '(t, ds, ps) =>
+                   (head_is 45 t, ds, ps, match rev (dot_cols t) with c :: _ => m_frac_digits (len t) c | [] => 0 end))
+                (zip3 texts digs pw))
+  end.
+Definition scientific_pre (plus : bool) (texts : list (list Z)) : option (list pre_row) :=
+  let parts := map (split_first 101) texts in
+  match decimal_pre plus (map fst parts), str_to_int_rows (map exp_part parts) with
+  | Some ds, Some es => Some (map (fun '((ng, d, p, f), e) => (ng, d, p, f, Some e)) (combine ds es))
+  | _, _ => None
+  end.
+Definition float_pre (plus : bool) (texts : list (list Z)) : option (list pre_row) :=
+  let sci := map has_e texts in
+  let a := mask_select sci texts in
+  let b := mask_select (map negb sci) texts in
+  match (match a with [] => Some [] | _ => scientific_pre plus a end),
+        (match b with [] => Some [] | _ => decimal_pre plus b end) with
+  | Some ra, Some rb => Some (merge_mask sci ra (map (fun '(ng, d, p, f) => (ng, d, p, f, @None Z)) rb))
+  | _, _ => None
+  end.
+(* exact-rational reading of a decomposed row: the same (neg, base, frac, exp) str_to_float_gen returns *)
+Definition exact_of_pre (r : pre_row) : bool * Z * Z * Z :=
+  let '(ng, d, p, f, e) := r in (ng, dotp d (map (Z.pow 10) p), f, match e with Some v => v | None => 0 end).
+
+(* ---- double evaluation of a decomposed row, given the platform's power function P ---- *)
+Fixpoint all_some {A} (l : list (option A)) : option (list A) :=
+  match l with
+  | [] => Some []
+  | Some x :: r => option_map (cons x) (all_some r)
+  | None :: _ => None
+  end.
+Definition dbl_terms (P : Z -> option dy) (ds ps : list Z) : option (list dy) :=
+  all_some (map (fun '(d, p) => option_map (fun pw => dmul (d, 0) pw) (P p)) (combine ds ps)).
+Definition dbl_base (P : Z -> option dy) (ds ps : list Z) : option dy :=
+  match dbl_terms P ds ps with Some ts => reduce_row ts | None => None end.
+Definition eval_row (P : Z -> option dy) (r : pre_row) : option (bool * dy) :=
+  let '(ng, ds, ps, f, e) := r in
+  match dbl_base P ds ps, P f with
+  | Some base, Some pf =>
+      let num := if ng then (- fst base, snd base) else base in      (* signs*base_numbers: exact *)
+      let dec := ddiv num pf in                                      (* / 10.**exponents *)
+      match e with
+      | None => Some (ng, dec)
+      | Some ev => option_map (fun pe => (ng, dmul dec pe)) (P ev)    (* * 10.**powers *)
+      end
+  | _, _ => None
+  end.
+Definition str_to_float_double (P : Z -> option dy) (plus : bool) (texts : list (list Z)) : option (list (bool * dy)) :=
+  match float_pre plus texts with
+  | None => None
+  | Some rows => all_some (map (eval_row P) rows)
+  end.
+(* does a 64-bit pattern hold the model's result?  (overflow -> infinity; zero keeps the text's sign) *)
+Definition dbl_matches (bits : Z) (r : bool * dy) : bool :=
+  let '(ng, (m, e)) := r in
+  if m =? 0 then bits =? (if ng then 2 ^ 63 else 0)
+  else if (e =? 0) && (2 ^ 1024 <=? Z.abs m) then dbl_is_inf bits && Bool.eqb (dbl_sign bits) (m <? 0)
+  else dbl_finite bits
+       && (let '(m', e') := canon ((if dbl_sign bits then -1 else 1) * dbl_m bits) (dbl_e bits) in (m' =? m) && (e' =? e)).
+(* the observed power table: (k, bits of 10.**k) *)
+Definition pow_of_table (tbl : list (Z * Z)) (k : Z) : option dy :=
+  match find (fun kv => fst kv =? k) tbl with
+  | Some kv => if dbl_finite (snd kv) then Some (canon (dbl_m (snd kv)) (dbl_e (snd kv))) else None
+  | None => None
+  end.
+
